@@ -160,8 +160,13 @@ class CkptBackend(TrialBackend):
         self.polls += 1
         running = [t for t in sorted(trial_ids) if self._trial_dict[t].status == Status.in_progress]
         per_trial = []
+        failing = []
         for t in running:
             k = self._choose(self.spec.get("max_steps", 3) + 1)
+            # scripted job failure (spec["fail_den"] = n: one chance in n per trial and poll): the job
+            # exits non-zero after the k reports of this poll (k = 0: before its next report)
+            if self.spec.get("fail_den") and self._choose(self.spec["fail_den"]) == 0:
+                failing.append(t)
             reps = []
             for _ in range(k):
                 if self.epoch[t] >= self.limit[t]:
@@ -184,7 +189,9 @@ class CkptBackend(TrialBackend):
                 RESOURCE: e, ST_WORKER_TIMESTAMP: float(self._ts), ST_WORKER_TIME: float(e),
                 ST_WORKER_COST: float(e), "elapsed_time": float(e)})
         for t in running:
-            if self.epoch[t] >= self.limit[t]:
+            if t in failing:
+                self._trial_dict[t].status = Status.failed
+            elif self.epoch[t] >= self.limit[t]:
                 self._trial_dict[t].status = Status.completed
         return super().fetch_status_results(trial_ids)
 
@@ -221,7 +228,8 @@ class Recorder(TunerCallback):
 
     def on_fetch_status_results(self, trial_status_dict, new_results):
         self.backend.log.append(("poll", [int(t) for t, _ in new_results],
-                                 sorted(int(t) for t, (_, s) in trial_status_dict.items() if s == Status.completed)))
+                                 sorted(int(t) for t, (_, s) in trial_status_dict.items() if s == Status.completed),
+                                 [int(t) for t, (_, s) in trial_status_dict.items() if s == Status.failed]))
 
     def on_trial_result(self, trial, status, result, decision):
         self.backend.log.append(("decision", int(trial.trial_id), str(decision), int(result[RESOURCE])))
